@@ -135,6 +135,24 @@ func classifyByName(call *ast.CallExpr, parents map[ast.Node]ast.Node) string {
 				}
 				break
 			}
+			// if m, ok := v.(I); ok { err = a() } else { err = b() }; if err != nil { return err }
+			if ifs, ok := q.(*ast.IfStmt); ok {
+				if _, chained := parents[ifs].(*ast.IfStmt); !chained {
+					var plist []ast.Stmt
+					switch b := parents[ifs].(type) {
+					case *ast.BlockStmt:
+						plist = b.List
+					case *ast.CaseClause:
+						plist = b.Body
+					}
+					for j, st := range plist {
+						if st == ast.Stmt(ifs) {
+							outer = plist[j+1:]
+						}
+					}
+					break
+				}
+			}
 			if _, ok := q.(*ast.FuncLit); ok {
 				break
 			}
